@@ -23,7 +23,7 @@ LOCK_TRUSTED = ["modelled, not verified: Go select / channel / sync/atomic seman
                 "C01Exec.handle_sound / replay_reach: every trace the driver accepts is a Lock.Step execution, so the theorems about Reach apply to every replayed state"]
 LOCK_RULE_RT = (" PLUS real-time scenarios on the real in-memory storage with lease 300 ms (thorough: more phases): holder holds 6 lease periods with a contender of another provider waiting {steady; a transient error injected on the k-th renewal CasByVersion, k=1..3 (thorough ..6)}; holder death at two phases of the renewal cycle (its renewals stop reaching the storage) -> contender must acquire within 3 leases; Unlock racing a due renewal -> at most one more renewal call, none successful; a failing scenario is re-run twice alone with a doubled lease and reported only if it fails both times (timing-flake filter)")
 LOCK_EXPL = {"C01": "C01.mutex (any N, any sharing, any interleaving, unbounded faults), holder_owns_record, locker_serialised, counter_exact; mutex_needs_timely_unlock is the kernel-checked KF-1 history",
-             "C04": "C04.no_residue, token_exact, record_has_live_owner, no_deadlock, handoff, after_shutdown_no_acquire, fail_path_restores on fault-free runs",
+             "C04": "C04.no_residue, token_exact, record_has_live_owner, no_deadlock, handoff, after_shutdown_no_acquire, fail_path_restores on fault-free runs; C04.service_reachable / everyone_can_be_served (AG EF served: from EVERY reachable state every acquiring caller with a live context can still be served by a finite continuation; all of them one after the other)",
              "C05": "C05.lease_chain_alive_partial (renewal chain never dies while held, under the stated timing assumption), renewal_dies_after_unlock_partial, dead_holder_released, lease_margin; reply_lost_breaks_chain = KF-3; the full-strength statements lease_chain_alive_full / renewal_dies_after_unlock_full are REFUTED in Lean (early-fire race; unbounded leftovers in an untimed model)"}
 
 PROPS = {
@@ -127,7 +127,7 @@ PROPS = {
         explanation=LOCK_EXPL["C01"],
     ),
     "C04": dict(
-        lean=["GolibsVerif.Props.C04", "GolibsVerif.Props.C01Exec"],
+        lean=["GolibsVerif.Props.C04", "GolibsVerif.Props.C04Live", "GolibsVerif.Props.C01Exec"],
         seq=[],
         go_cmds=("seq", "conc"),
         conc=[dict(comp="lock", driver="locktrace", args=["-focus", "C04"],
@@ -255,7 +255,7 @@ MANIFEST_TEXT.update({
     "C02": _t("Lean: generic theorem that an object whose operations each take effect in one atomic step is linearizable in step order (real-time respecting, sequentially legal); contract theorems for all histories (fresh versions, at most one CAS winner per version, one winning creator, losers change nothing); in-memory backend: regenerated skeleton fact (each method = one lock region) + instrumented critical-section order replayed by the Lean driver; Redis backend: theorem C02Redis.linearizable — the command-level concurrent model of redis.go (any number of clients, any interleaving of SETNX/GET/SET/MSET/MGET/DEL/WATCH/MULTI-EXEC, unboundedly many lost races and retries) refines the atomic-step system over the contract — tied to redis.go + go-redis + miniredis by replaying real command-level executions (every command parked and released one at a time by a go-redis hook) through the model; free-running Redis histories additionally get a Lean-validated linearization witness. No expiries in the concurrent runs", "Lean 4 linearizability proofs (generic atomic-step theorem + forward simulation of the Redis command-level model) + trace refinement of real command-level executions"),
     "C20": _t("Lean proof on a lexical path / small file-system model that UnzipToFolder creates files and directories only inside the destination for ANY archive, and that ZipFolder∘UnzipToFolder reproduces exactly the selected files (path and content); tied to files.go by a differential run on a sandboxed real file system (hostile archives, random trees, all filter/recursive/spelling combinations) with Go-side confinement and round-trip monitors", "Lean 4 proofs over a path/file-system model + model/code correspondence on the real file system"),
     "C01": _t("Lean proof of mutual exclusion for the N-process transition system of kvlock.go (any number of goroutines/Lockers/providers, every interleaving at storage-call granularity, cancellation anywhere, unbounded request-lost/reply-lost faults) under the explicit lease assumption; tied to the code by trace refinement: real kvsLock goroutines run under a controlled scheduler and every recorded trace is replayed through the executable model, which is proved sound w.r.t. the transition relation (C01Exec)", "Lean 4 inductive-invariant proof over an N-process transition system + trace refinement of real executions"),
-    "C04": _t("Lean proofs on fault-free runs: no residue at quiescence, token/counter exact, no orphan record, deadlock freedom (some caller inside a call can always move when nobody holds), hand-off enabledness, no acquisition after shutdown, failure paths restore the Locker; tie as C01 plus Go-side residue / stuck monitors. Eventual service of every caller rests on a fairness assumption (not mechanised)", "Lean 4 invariant + enabledness proofs + trace refinement of real executions"),
+    "C04": _t("Lean proofs on fault-free runs: no residue at quiescence, token/counter exact, no orphan record, deadlock freedom (some caller inside a call can always move when nobody holds), hand-off enabledness, no acquisition after shutdown, failure paths restore the Locker, and the branching-time core of liveness (service_reachable / everyone_can_be_served: no reachable state cuts an acquiring caller off — a finite continuation serves it, and all acquiring callers one after the other); tie as C01 plus Go-side residue / stuck / lease-loss monitors. Inevitable service additionally needs a fair scheduler (not expressible over the untimed step relation; not mechanised)", "Lean 4 invariant, enabledness and reachability (AG EF) proofs + trace refinement of real executions"),
     "C05": _t("Lean proofs: the renewal chain stays alive while the lock is held (under the stated timing assumption; the unrestricted statement is refuted in Lean), leftovers after Unlock are stale and die at their next CAS, a lapsed record lets a waiter acquire, timing margin arithmetic; tie as C01 with scheduler-driven timer firing and a Go-side chain-alive monitor. Real-time behaviour (timers, latency) is runtime and not proved", "Lean 4 invariant proofs (partial: timing assumption explicit) + trace refinement of real executions"),
 })
 
